@@ -186,7 +186,7 @@ def execute(plan, env):
                 want_exc = "ValueError"
                 res.count("probe.slice_negative_argument")
             try:
-                sr = r.slice(op[2], op[3])
+                sr = r.slice(index=op[2], length=op[3]) if step % 3 == 1 else r.slice(op[2], op[3])
             except Exception as e:
                 sr = None
                 got_exc = type(e).__name__
@@ -217,7 +217,12 @@ def execute(plan, env):
             except ModelValueError:
                 want_exc = "ValueError"
             try:
-                got = getattr(r, name)(*args)
+                if step % 5 == 2 and name in ("get_fixed_string", "get_fixed_encoded_string"):
+                    got = getattr(r, name)(length=args[0], padded=args[1])      # documented parameter names
+                elif step % 5 == 2 and name == "get_bytes":
+                    got = r.get_bytes(length=args[0])
+                else:
+                    got = getattr(r, name)(*args)
                 if isinstance(got, (bytearray, memoryview)):
                     got = bytes(got)
             except Exception as e:
